@@ -27,6 +27,7 @@ type Env struct {
 	atEnd     bool
 	hdr       *ssa.BasicBlock
 	upTo      ssa.Instruction
+	atCall    bool // the clause of a callee evaluated at a call: parameter names are bound in vars
 }
 
 func (c *fnCtx) newEnv(st, old *State) *Env {
@@ -44,7 +45,7 @@ func (c *fnCtx) newEnvAt(st *State, at *ssa.BasicBlock) *Env {
 }
 
 func (e *Env) child() *Env {
-	n := &Env{c: e.c, st: e.st, old: e.old, vars: map[string]SymVal{}, at: e.at, calleePkg: e.calleePkg, bound: map[string]bool{}, atEnd: e.atEnd, hdr: e.hdr, upTo: e.upTo}
+	n := &Env{c: e.c, st: e.st, old: e.old, vars: map[string]SymVal{}, at: e.at, calleePkg: e.calleePkg, bound: map[string]bool{}, atEnd: e.atEnd, hdr: e.hdr, upTo: e.upTo, atCall: e.atCall}
 	for k, v := range e.vars {
 		n.vars[k] = v
 	}
@@ -1622,6 +1623,11 @@ func (e *Env) call(ex *ast.CallExpr) (SymVal, error) {
 		id, ok := ex.Args[0].(*ast.Ident)
 		if !ok || len(ex.Args) != 1 {
 			return SymVal{}, fmt.Errorf("param(name)")
+		}
+		if e.atCall {
+			if v, ok := e.vars[id.Name]; ok {
+				return v, nil
+			}
 		}
 		if v, ok := c.paramVals[id.Name]; ok {
 			return v, nil
